@@ -188,6 +188,27 @@ func runC11(e *Env) {
 		nq, okQ := RefNormalize(Q, strict)
 		if !okP || !okQ {
 			t.Count("equivalence.outside_sublanguage", 1)
+			// the normal form of such strings is not documented, but whatever it is, both entry
+			// points apply it: a request path reaches the route through Match exactly when it
+			// reaches it through ServeHTTP (also when the request spells the stored path itself)
+			router := rux.New(c11Opts(strict, false)...)
+			var route *rux.Route
+			if _, panicked := catch(func() { route = router.GET(P, namedHandler("p")) }); panicked || route == nil {
+				return // totality is judged by part (a)
+			}
+			for _, q := range []string{Q, route.Path(), route.Path() + "/", " " + route.Path()} {
+				got, _, _ := router.Match("GET", q)
+				rec, pv, panicked := Serve(router, NewReq("GET", q))
+				if panicked {
+					t.Fail("servehttp-panics", "ServeHTTP(GET %q) panicked: %v", q, pv)
+					return
+				}
+				t.Count("equivalence.entry_point_pairs", 1)
+				if (got == route) != (rec.Route == "p") {
+					t.Fail("entry-points-normalise-differently", "route registered as %q (stored as %q, strict=%v), request path %q: Match reaches it=%v, ServeHTTP reaches it=%v", P, route.Path(), strict, q, got == route, rec.Route == "p")
+					return
+				}
+			}
 			return
 		}
 		if G != "" && strict && strings.HasSuffix(strings.TrimSpace(G), "/") {
